@@ -179,7 +179,7 @@ def _add_variants():
 
 _add_variants()
 CUTOFFS = [0.0, 0.0, 1e-5, 1e-3]
-DATA_KINDS = ["perfect", "pinhole", "slit", "2d", "sesans"]
+DATA_KINDS = ["perfect", "pinhole", "slit", "2d", "sesans", "sesans_tight"]
 SV_MODELS = ["sphere", "cylinder", "core_multi_shell", "sphere@hardsphere", "sphere@hayter_msa", "hardsphere", "broad_peak",
              "pyplug", "allpd"]
 SV_SET = {
@@ -321,6 +321,9 @@ def _make_data(kind):
         return sdata.empty_data2D(qx, qx, resolution=0.02)
     if kind == "sesans":
         return sdata.empty_sesans(np.linspace(200.0, 3000.0, 7))
+    if kind == "sesans_tight":
+        # the same spin-echo lengths with a small acceptance angle, so that part of the Hankel matrix is masked
+        return sdata.empty_sesans(np.linspace(200.0, 3000.0, 7), wavelength=5.0, zacceptance=(0.0005, "radians"))
     raise ValueError(kind)
 
 
